@@ -114,10 +114,19 @@ def build_doc(via, tier="quick"):
     return doc, (load_doc(doc) if via == "xml" else build_objects(doc))
 
 
+def _flag(value, pkt):
+    """The boolean option as callers have it: a bool, or (by the packet's content) the int / numpy scalar that a configuration file, an argparse
+    switch or an array element gives."""
+    import numpy as np
+    import zlib
+    k = zlib.crc32(pkt) % 4
+    return (value, int(value), np.bool_(value), np.int64(int(value)))[k]
+
+
 def observe_stream(defn, pkt, parse_bad):
     with observed_warnings() as w:
         try:
-            out = list(defn.packet_generator(pkt, parse_bad_pkts=parse_bad))
+            out = list(defn.packet_generator(pkt, parse_bad_pkts=_flag(parse_bad, pkt)))
         except Exception as e:  # noqa: BLE001
             return ("raised", exc_names(e)[0], str(e)[:120], len(w))
     if not out:
@@ -244,7 +253,7 @@ def _task(task):
                     stream = b"".join(fam[j][1] for j in seq)
                     for pb in (True, False):
                         got = []
-                        g = defn.packet_generator(stream, parse_bad_pkts=pb)
+                        g = defn.packet_generator(stream, parse_bad_pkts=_flag(pb, stream))
                         while True:
                             with observed_warnings() as w:
                                 try:
@@ -423,7 +432,7 @@ def run(ctx):
         "exhaustive": True,
         "bound": (f"{n} layouts ({'with the thorough-only alignment/field-kind variants; ' if not ctx.quick else ''}fixed: u8,u16 / u3,u13 / f32 / str16 / bin12,u4 / str12 / str12,u4 / str29,u3,u8 / u8,str20 / s64 / u16le,u8; length dependent: LEN+BLOB 8*LEN+{{0,8,-8}}, "
                   "rest-of-packet 8*PKT_LEN-{8,16,64}+TAIL, dynamic string, unaligned variants, float after dynamic blob, calibrated length, bit-granular length) "
-                  f"x LEN 0..{5 if ctx.quick else 9} x every data length 1..required+{3 if ctx.quick else 6} bytes x {3 if ctx.quick else 4} fills x parse_bad_pkts {{T,F}}, from XML and from objects; "
+                  f"x LEN 0..{5 if ctx.quick else 9} x every data length 1..required+{3 if ctx.quick else 6} bytes x {3 if ctx.quick else 4} fills x parse_bad_pkts {{T,F}} (handed over as bool, int or numpy scalar in rotation), from XML and from objects; "
                   "6 multi-container layouts (a record container with a length and a payload sized by it referenced twice, over every byte string of <= 7 bytes from {0,1,2}; base container with a field after the header, two-level inheritance with abstract and concrete middle levels, a nested "
                   "container between fields, a value-selected leaf) x every data length 1..8 bytes (so that packets end on every container boundary) x 4 fills x 2 leading bytes; "
                   "the dataset builder as a front end (4 streams of good / too long / too short packets x parse_bad_pkts False, True, default); per layout every stream of 2..3 packets over {exactly consumed, 2 bytes longer, 1 byte shorter} with warnings attributed per next() call"),
